@@ -146,3 +146,13 @@ VARIANTS += [
            [(CB, "        elif isinstance(obj, Number):\n", "        elif isinstance(obj, (Real, Complex)):\n")],
            ("C07", "C18")),
 ]
+
+VARIANTS += [
+    # ---- hunt wave 8: nesting of the assembled program (repo fix)
+    fire("r12-assembled-nesting-not-checked",
+         [(CB, "        for macro in macros.values():\n            check_subcircuit_nesting(macro.body, self.subcircuit_memo)\n        for stmt in statements:\n            check_subcircuit_nesting(stmt, self.subcircuit_memo)\n", "")],
+         ("*", "Builder.build_circuit:assembled-nesting"), ("C17", "C14")),
+    fire("r12-assembled-nesting-statements-only",
+         [(CB, "        for macro in macros.values():\n            check_subcircuit_nesting(macro.body, self.subcircuit_memo)\n", "")],
+         ("*", "Builder.build_circuit:assembled-nesting:macros"), ("C17",)),
+]
